@@ -47,7 +47,7 @@ class C14(Prop):
     BACKENDS = ("file", "memory")
     WEIGHTS = {"page": 3, "pages": 2, "links": 4, "batch": 3, "again": 0, "create": 3, "delete": 1, "addprefix": 2,
                "rmprefix": 1, "move": 1, "rule": 2, "unrule": 1, "reopen": 1}
-    QUICK = (12, 14)
+    QUICK = (40, 14)
     THOROUGH = (150, 30)
     ASSUMPTIONS = ["'a single byte' is observed on the raw store contents (file after flush, or the bytearray)"]
 
